@@ -101,6 +101,22 @@ def check(ctx):
                              f"the graph (self._all_nodes_and_vars())", ok_s, detail=detail,
                stmt=f"selector {key}: {detail[:160]}",
                facts={"selector": detail})
+    # build_model reads the user-supplied totals from gb = self.copy(): the copy must
+    # carry the three attributes (or be a shallow object copy, which carries them all)
+    cpm = method(repo, gb, "copy", own=True)
+    rcp = evaluate(repo, cpm)
+    rtc = rcp.ret()
+    if rtc is not None and is_call(rtc, "copy.copy") and rtc[2] == (SELF,):
+        carried = {a for _, a, _, _ in specs.values()}
+    else:
+        carried = {loc[2] for loc, val, _, cond in rcp.stores
+                   if rtc is not None and loc[0] == "a" and loc[1] == rtc
+                   and val == ("a", SELF, loc[2]) and not cond}
+    for _, user_attr, _, _ in specs.values():
+        ctx.ob("C02.R3", cpm, f"the builder copy that build_model works on carries the "
+                              f"user-supplied {user_attr}", user_attr in carried,
+               detail=f"copy() returns {short(rtc or ())}; carried {sorted(carried)}",
+               stmt=f"copy carries {user_attr}")
     rs = repo.func(f"{MODEL}._reduced_sum")
     rr = evaluate(repo, rs).ret()
     ok = False
